@@ -22,10 +22,24 @@ def parseSig (t : String) : Option (Option S) :=
 def parseSigs (s : String) : Option (List (Option S)) :=
   if s == "-" ∨ s == "" then some [] else (s.splitOn ".").mapM parseSig
 
+/-- a peer token is `id` or `id@idx`; `idx` is the uint32 `PeerConfig.Index`, opaque data that no check may depend on:
+the model drops it (after checking that it is a uint32 literal) -/
+def parsePeerTok (t : String) : Option Nat :=
+  match t.splitOn "@" with
+  | [id] => id.toNat?
+  | [id, idx] =>
+    match idx.toNat? with
+    | some i => if i < 4294967296 then id.toNat? else none
+    | none => none
+  | _ => none
+
+def parsePeers (s : String) : Option (List Nat) :=
+  if s == "-" ∨ s == "" then some [] else (s.splitOn ".").mapM parsePeerTok
+
 def parseCfg (s : String) : Option (Cfg K) :=
   if s == "-" then some .none
   else if s == "!" then some .bad
-  else if s.startsWith "p" then (parseNats (s.drop 1).toString).map .peers
+  else if s.startsWith "p" then (parsePeers (s.drop 1).toString).map .peers
   else none
 
 def parseOp (s : String) : Option (Op K M S) :=
